@@ -67,6 +67,8 @@ type replay struct {
 var pieces = []string{
 	`"`, `\`, `:`, ` `, `  `, `": `, `":  `, `\":  x`, "\n", "\t", "\r", "é", "日本", "\x01", "\x1f", "a", "b", "k", "{", "}", "[", "]", ",",
 	`"a":  b`, `\\"`, `\"`, "\n \"k\":  v", `:  `, `'`, "\u2028", "/", "\x7f", "<", "&",
+	// text that looks like JSON escapes, and runes outside the BMP
+	"\U0001F600", `\u0041`, `\ud83d`, `\n`, `\\`, "\U00010000", `\u`,
 }
 
 func hostile(r *common.Rng, max int) string {
@@ -561,11 +563,6 @@ func classifyReimport(orig, re *sysl.Module) map[string]string {
 			case d.kind == "len" && n >= 4 && d.path[n-1] == "elt" && d.path[n-2] == "a" && strings.HasPrefix(d.path[n-3], "[") && d.path[n-4] == "attrs" &&
 				len(d.path) > 2 && d.path[1] == "endpoints" && d.path[2] != "["+collectorName+"]" && collectorHasArrayAttr(a) && onlyRepeats(d.a.List(), d.b.List()):
 				keys["reimport:collector-array-attr"] = fmt.Sprintf("%s: %d elements became %d (collector attributes appended again)", p, d.a.List().Len(), d.b.List().Len())
-			case d.kind == "len" && n >= 6 && d.path[n-1] == "elt" && d.path[n-2] == "a" && strings.HasPrefix(d.path[n-3], "[") && d.path[n-4] == "attrs" &&
-				d.path[1] == "endpoints" && d.path[2] == "["+collectorName+"]" && d.path[3] == "stmt" && collectorHasArrayAttr(a) && onlyRepeats(d.a.List(), d.b.List()):
-				// the same append, seen through Go's pointer sharing: a target that holds the collector statement's own
-				// attribute object (dst[k] = v) is appended to by a later collector statement
-				keys["reimport:collector-array-attr:own-statement"] = fmt.Sprintf("%s: %d elements became %d (a collector statement's own attribute, shared with its target, grew again)", p, d.a.List().Len(), d.b.List().Len())
 			case d.kind == "+" && n == 3 && (d.path[1] == "types" || d.path[1] == "views") && hasMixinChain(orig, k):
 				keys["reimport:mixin-chain"] = fmt.Sprintf("%s appears only after re-import (mixin of a mixin)", p)
 			default:
@@ -1006,7 +1003,11 @@ func genAbstract(r *common.Rng, collAttr, mixin int, backward bool) *sysl.Module
 			case k < 5:
 				o = append(o, &sysl.Statement{Stmt: &sysl.Statement_Action{Action: &sysl.Action{Action: "act"}}, Attrs: mkAttrs()})
 			case k < 6:
-				o = append(o, &sysl.Statement{Stmt: &sysl.Statement_Ret{Ret: &sysl.Return{Payload: "ok"}}})
+				if r.Chance(1, 25) {
+					o = append(o, &sysl.Statement{}) // no kind: the collector code panics on it when it walks by
+				} else {
+					o = append(o, &sysl.Statement{Stmt: &sysl.Statement_Ret{Ret: &sysl.Return{Payload: "ok"}}})
+				}
 			case k < 7 && d > 0:
 				o = append(o, &sysl.Statement{Stmt: &sysl.Statement_Loop{Loop: &sysl.Loop{Mode: sysl.Loop_WHILE, Criterion: "c", Stmt: stmts(d - 1)}}})
 			case d > 0:
@@ -1065,7 +1066,9 @@ func genAbstract(r *common.Rng, collAttr, mixin int, backward bool) *sysl.Module
 					at = map[string]*sysl.Attribute{"patterns": mkAttr()}
 				}
 				scalarOnly, arrayOnly = false, false
-				if r.Bool() {
+				if r.Chance(1, 40) {
+					c.Stmt = append(c.Stmt, &sysl.Statement{Stmt: &sysl.Statement_Ret{Ret: &sysl.Return{Payload: "ok"}}, Attrs: at})
+				} else if r.Bool() {
 					c.Stmt = append(c.Stmt, &sysl.Statement{Stmt: &sysl.Statement_Action{Action: &sysl.Action{Action: epn[r.Intn(len(epn))]}}, Attrs: at})
 				} else {
 					s := call()
@@ -1075,9 +1078,38 @@ func genAbstract(r *common.Rng, collAttr, mixin int, backward bool) *sysl.Module
 			}
 			a.Endpoints[collectorName] = c
 		}
+		// a kind-less statement outside an application whose collector has a call statement would not be met by the
+		// collector but by checkEndpointCalls at the end of postProcess, which panics on it or not depending on map
+		// order (it stops at the first invalid call): keep them where the outcome is determined
+		hasCollCall := false
+		for _, s := range a.Endpoints[collectorName].GetStmt() {
+			if s.GetCall() != nil {
+				hasCollCall = true
+			}
+		}
+		if !hasCollCall {
+			for _, e := range a.Endpoints {
+				giveKinds(e.Stmt)
+			}
+		}
 		m.Apps[names[i]] = a
 	}
 	return m
+}
+
+func giveKinds(ss []*sysl.Statement) {
+	for _, s := range ss {
+		switch x := s.Stmt.(type) {
+		case nil:
+			s.Stmt = &sysl.Statement_Ret{Ret: &sysl.Return{Payload: "ok"}}
+		case *sysl.Statement_Loop:
+			giveKinds(x.Loop.Stmt)
+		case *sysl.Statement_Alt:
+			for _, c := range x.Alt.Choice {
+				giveKinds(c.Stmt)
+			}
+		}
+	}
 }
 
 // ------------------------------------------------------------------ main
@@ -1096,6 +1128,12 @@ type runner struct {
 	cleanBytes int
 	rot      int
 	allImports bool // re-import through every encoding (thorough, regression, replay); otherwise .pb and one other in rotation
+	syslBin    string
+	cliNames   map[string]bool
+	cliCases   []cliCase
+	fieldsSeen map[string]bool
+	noSplit    bool
+	cliRot     int
 }
 
 func (rn *runner) failf(key string, rp replay, format string, a ...interface{}) {
@@ -1105,6 +1143,10 @@ func (rn *runner) failf(key string, rp replay, format string, a ...interface{}) 
 // all oracle clauses on one module; base describes how to rebuild it
 func (rn *runner) judgeModule(m *sysl.Module, base replay, label string, jsonToCoq bool, reimport bool) {
 	c := rn.c
+	rn.noteFields(m.ProtoReflect())
+	if !rn.noSplit {
+		rn.splitInProcess(m, base, label)
+	}
 	for ei, e := range encodings {
 		rp := base
 		rp.Enc, rp.Compact, rp.Via = e.name, e.compact, "decode"
@@ -1130,6 +1172,10 @@ func (rn *runner) judgeModule(m *sysl.Module, base replay, label string, jsonToC
 				what = strings.Join(ds[0].path, ".") + " (" + ds[0].kind + ")"
 			}
 			rn.failf("roundtrip:"+e.name+":differs", rp, "%s: decoding the %s output gives a different model: %s", label, e, what)
+		}
+		// byte-stable: encoding what was decoded gives the same bytes again
+		if b2, err := encode(m2, e); err != nil || !bytes.Equal(b, b2) {
+			rn.failf("roundtrip:"+e.name+":unstable-bytes", rp, "%s: encoding the decoded %s output again gives other bytes (%d, then %d; %v)", label, e, len(b), len(b2), err)
 		}
 		c.Hist("roundtrip:" + e.String())
 		rn.rot++
@@ -1357,7 +1403,7 @@ func main() {
 		os.Exit(3)
 	}
 	c.Res.Extra["regex_literal"] = re.lit
-	rn := &runner{c: c, re: re}
+	rn := &runner{c: c, re: re, syslBin: os.Getenv("VERIF_SYSL_BIN"), cliNames: map[string]bool{}, fieldsSeen: map[string]bool{}}
 
 	if c.Replay != "" {
 		var rp replay
@@ -1374,14 +1420,16 @@ func main() {
 	}
 
 	hdrClean := `From Coq Require Import String Ascii List Bool NArith. Import ListNotations.
-Require Import Verif.Base.Harness Verif.Codec.JsonClean Verif.Codec.Dispatch Verif.Codec.PostProcess Verif.Codec.Run Verif.Gen.JsonRegex Verif.Gen.PbDispatch.
-Local Open Scope string_scope.
-Definition src := {| src_regex := regex; src_cases := cases; src_after := after_switch; src_fallback := frompb_fallback; src_writers := file_writers |}.`
+Require Import Verif.Base.Harness Verif.Codec.JsonClean Verif.Codec.Dispatch Verif.Codec.PostProcess Verif.Codec.Run Verif.Codec.RunSrc.
+Local Open Scope string_scope.`
 	hdrPost := `From Coq Require Import String Ascii List Bool NArith PArith. Import ListNotations.
-Require Import Verif.Base.Harness Verif.Codec.JsonClean Verif.Codec.Dispatch Verif.Codec.PostProcess Verif.Codec.Run Verif.Gen.JsonRegex Verif.Gen.PbDispatch.
+Require Import Verif.Base.Harness Verif.Codec.JsonClean Verif.Codec.Dispatch Verif.Codec.PostProcess Verif.Codec.Run Verif.Codec.RunSrc.
 Local Open Scope positive_scope.
-Definition src := {| src_regex := regex; src_cases := cases; src_after := after_switch; src_fallback := frompb_fallback; src_writers := file_writers |}.
 Definition A := @Build_app attr. Definition E := @Build_endpoint attr.`
+	hdrCli := `From Coq Require Import String Ascii List Bool NArith PArith. Import ListNotations.
+Require Import Verif.Base.Harness Verif.Codec.StripCtx Verif.Codec.Run Verif.Codec.RunSrc.
+Local Open Scope string_scope.
+Local Open Scope positive_scope.`
 	footer := `Definition M := Eval vm_compute in mismatches (c09_ok src) cases. Print M.`
 	rn.clean = c.NewCases("C09clean", hdrClean, "c09_case", footer, 120)
 	rn.disp = c.NewCases("C09disp", hdrClean, "c09_case", footer, 2000)
@@ -1505,6 +1553,34 @@ Definition A := @Build_app attr. Definition E := @Build_endpoint attr.`
 		rn.regexCase(genDoc(c.Rng))
 	}
 	lap("documents")
+	// 7. any message of sysl.proto (every field, maps with 0 / 1 / many entries, deep trees) through all encoders,
+	//    file writers and the split writer
+	nAny := 30 * scale
+	for i := 0; i < nAny; i++ {
+		m := genAnyModule(c.Rng, 1+i%4, 30+(i%3)*25, i, 8)
+		c.Count("any|"+detBytes(m), true)
+		c.Hist("module:any-message")
+		rn.judgeModule(m, replay{Kind: "any", Doc: protojson.Format(m)}, "module with arbitrary fields", false, false)
+	}
+	lap("any-message")
+	// 8. the command line itself
+	if rn.syslBin == "" {
+		c.Res.Notes = append(c.Res.Notes, "VERIF_SYSL_BIN not set: the `sysl pb` binary was not run")
+	} else {
+		rn.cliStreams(scale)
+	}
+	lap("cli")
+	rn.flushCli(hdrCli, footer)
+	var all, never []string
+	allFields((&sysl.Module{}).ProtoReflect().Descriptor(), map[string]bool{}, &all)
+	for _, f := range all {
+		if !rn.fieldsSeen[f] {
+			never = append(never, f)
+		}
+	}
+	sort.Strings(never)
+	c.Res.Extra["sysl_proto_fields"] = len(all)
+	c.Res.Extra["sysl_proto_fields_never_populated"] = never
 	rn.clean.Close()
 	rn.disp.Close()
 	rn.post.Close()
@@ -1528,6 +1604,14 @@ func (rn *runner) abstractCase(m0 *sysl.Module) {
 		}
 		return
 	}
+	if err != nil && strings.Contains(err.Error(), "cannot be processed") {
+		// the panic of the post-processing, recovered by finishModule and reported as an error
+		rn.c.Hist("abstract:first-compile-panics")
+		if rn.post != nil {
+			rn.post.Add(postCase(m0, nil), rp)
+		}
+		return
+	}
 	if err != nil || m1 == nil {
 		rn.c.Hist("abstract:first-compile-error")
 		return
@@ -1541,6 +1625,67 @@ func (rn *runner) abstractCase(m0 *sysl.Module) {
 		rn.c.Hist("abstract:outside-idempotence-condition")
 	}
 	rn.judgeModule(m1, rp, "module built directly, compiled", false, true)
+}
+
+// the streams of the command line: Sysl text using the whole language, generated specifications, arbitrary
+// messages on stdin, a compiled model named as MODULE
+var regressionCli = []string{
+	// an application name that is no UTF-8: every encoder refuses it, and so must every destination of the command
+	"A%FF:\n    E: ...\nB:\n    E: ...\n",
+	// names that are one path to --split-apps
+	"A :: B:\n    E: ...\nA%2FB:\n    F: ...\n",
+	// a pubsub subscriber: Endpoint.source must survive --compact (its Go name merely starts with "Source")
+	"Pub:\n    <-> Evt [~e]: ...\nSub [k=\"v\"]:\n    Pub -> Evt:\n        do it\n    !type T:\n        x <: int\n    !view v(a <: int) -> int:\n        a -> (:\n            y = a + 1\n        )\n",
+}
+
+func (rn *runner) cliSysl(src, stream string, toCoq bool) {
+	files := map[string]string{"m.sysl": src}
+	rn.c.Hist("cli-input:" + stream)
+	rn.cliInputCase(cliInput{kind: "sysl", files: files, root: "m.sysl"}, nil, replay{Kind: "sysl", Files: files, Root: "m.sysl"}, stream+" specification", false, toCoq)
+}
+
+func (rn *runner) cliStreams(scale int) {
+	c := rn.c
+	for _, s := range regressionCli {
+		rn.cliSysl(s, "regression", true)
+		if m, err, panicked := compile(map[string]string{"m.sysl": s}, "m.sysl"); !panicked && err == nil && m != nil {
+			rn.splitInProcess(m, replay{Kind: "sysl", Files: map[string]string{"m.sysl": s}, Root: "m.sysl"}, "regression specification")
+		}
+	}
+	rn.cliSysl(genRichSysl(c.Rng, 0), "whole-language", true)
+	for i := 0; i < 2*scale; i++ {
+		rn.cliSysl(genRichSysl(c.Rng, 1+i), "whole-language", i < 4)
+	}
+	for i := 0; i < 2*scale; i++ {
+		rn.cliSysl(genSysl(c.Rng, genOpts{hostileNames: i%2 == 0}), "generated", true)
+	}
+	for i := 0; i < 3*scale; i++ {
+		m := genAnyModule(c.Rng, 1+i%3, 40+(i%3)*20, 1000+i, 12)
+		b, err := proto.MarshalOptions{Deterministic: true}.Marshal(m)
+		if err != nil {
+			continue
+		}
+		rn.noteFields(m.ProtoReflect())
+		c.Hist("cli-input:stdin-pb")
+		rn.cliInputCase(cliInput{kind: "stdin-pb", stdin: b}, m, replay{Kind: "any", Doc: protojson.Format(m)}, "arbitrary module on stdin", false, true)
+	}
+	// a compiled model named as MODULE, under each suffix: it is decoded, merged and post-processed again
+	for i := 0; i < 1*scale; i++ {
+		src := genSysl(c.Rng, genOpts{})
+		m, err, panicked := compile(map[string]string{"m.sysl": src}, "m.sysl")
+		if panicked || err != nil || m == nil {
+			continue
+		}
+		e := []encoding{encodings[0], encodings[1], encodings[3], encodings[2], encodings[4]}[(i+int(c.Seed))%5]
+		b, err := encode(m, e)
+		if err != nil {
+			continue
+		}
+		name := "x" + e.suffix
+		c.Hist("cli-input:compiled-as-module" + e.suffix)
+		rn.cliInputCase(cliInput{kind: "file" + e.suffix, files: map[string]string{name: string(b)}, root: name}, m,
+			replay{Kind: "sysl", Files: map[string]string{"m.sysl": src}, Root: "m.sysl", Note: "compiled to " + name + " and given to `sysl pb` as MODULE"}, "compiled model as MODULE", true, false)
+	}
 }
 
 func nontrivialModule(m *sysl.Module) bool {
@@ -1628,6 +1773,18 @@ func (rn *runner) replay(rp replay, repo string) {
 		rn.clean = nil
 		rn.files = nil
 		rn.judgeModuleOnly(m, rp)
+		rn.cliInputCase(cliInput{kind: "sysl", files: rp.Files, root: rp.Root}, nil, rp, "replayed specification", false, false)
+	case "any":
+		m := &sysl.Module{}
+		if err := protojson.Unmarshal([]byte(rp.Doc), m); err != nil {
+			fmt.Println("replay message is not a module:", err)
+			return
+		}
+		rn.post, rn.clean, rn.files = nil, nil, nil
+		rn.judgeModule(m, rp, "replayed module", false, false)
+		if b, err := (proto.MarshalOptions{Deterministic: true}).Marshal(m); err == nil {
+			rn.cliInputCase(cliInput{kind: "stdin-pb", stdin: b}, m, rp, "replayed module on stdin", false, false)
+		}
 	case "corpus":
 		m, err := compileCorpus(repo, rp.Path)
 		if err != nil {
